@@ -24,6 +24,9 @@ def run_task(task, mod):
     skeleton = tuple(task["params"]["skeleton"])
     vs, cs = hist.declare(skeleton, net.n, maxlim=task["params"].get("maxlim", hist.MAXLIM))
     extra_vs, extra_cs = mod.extra_vars(task, net) if hasattr(mod, "extra_vars") else ([], [])
+    if task["params"].get("free_inputs"):
+        fv, fc = hist.declare_free(net)
+        extra_vs, extra_cs = list(extra_vs) + fv, list(extra_cs) + fc
     H = hist.SymH(net.n)
     selftest = task["params"].get("selftest")
 
@@ -31,6 +34,7 @@ def run_task(task, mod):
         oracles.FAULT["count"] = 0
         oracles.FAULT["at"] = None
         oracles.AEON_TEXT.clear()
+        hist.set_presentation(H, net.names, task["params"])
         out = mod.execute(rules, skeleton, H, net.names, task["params"])
         parts = mod.assertion(net, rules, skeleton, out, task["params"])
         if selftest:
@@ -49,6 +53,7 @@ def replay(rec, mod):
     B = ConcreteNet.from_bnet(rec["rules"])
     skeleton = tuple(rec["params"]["skeleton"])
     H = hist.ConcH(rec.get("hist", {}))
+    hist.set_presentation(H, B.names, rec["params"])
     out = mod.execute(rec["rules"], skeleton, H, B.names, rec["params"])
     parts = mod.assertion(B, rec["rules"], skeleton, out, rec["params"])
     if rec["params"].get("selftest"):
